@@ -117,7 +117,7 @@ pub fn full_alphabet(c: u32, l: u32) -> Vec<Op> {
 fn broad_spec(c: &Collector, gs: Vec<(u32, u32)>) -> Spec {
     Spec {
         geoms: gs,
-        fills: vec![Fill::F0, Fill::F1, Fill::F2, Fill::F3, Fill::F4, Fill::F5, Fill::F6],
+        fills: vec![Fill::F0, Fill::F1, Fill::F2, Fill::F3, Fill::F4, Fill::F5, Fill::F6, Fill::F7],
         cursors: CursorSel::All,
         regions: RegionSel::Some,
         modesets: vec![],
